@@ -248,15 +248,22 @@ deriving DecidableEq, Repr
 
 def mkRes (r : Resp) (v : Vol) : Res := ⟨r, v, [], false⟩
 
+/-- the term write of RequestVote, if the request carries a newer term -/
+def votePre (v : Vol) (q : VoteReq) : List (Write × Res) :=
+  if q.term > v.term then
+    [(.setTerm q.term, { mkRes (.vote v.term false) { v with role := .follower, leader := 0, leaderId := 0 } with panic := true })]
+  else []
+
+def voteVol1 (v : Vol) (q : VoteReq) : Vol := if q.term > v.term then stepDown v q.term else v
+
 def votePlan (d : Durable) (v : Vol) (q : VoteReq) : Plan :=
   let no (t : Nat) (v' : Vol) : Res := mkRes (.vote t false) v'
   if q.candId ≠ 0 ∧ v.latest ≠ [] ∧ ¬ inConfiguration v.latest q.candId then ⟨[], no v.term v⟩
   else if v.leader ≠ 0 ∧ v.leader ≠ q.cand ∧ ¬ q.transfer then ⟨[], no v.term v⟩
   else if q.term < v.term then ⟨[], no v.term v⟩
   else
-    let pre : List (Write × Res) :=
-      if q.term > v.term then [(.setTerm q.term, { no v.term { v with role := .follower, leader := 0, leaderId := 0 } with panic := true })] else []
-    let v1 : Vol := if q.term > v.term then stepDown v q.term else v
+    let pre := votePre v q
+    let v1 := voteVol1 v q
     let t1 := v1.term
     if q.candId ≠ 0 ∧ v.latest ≠ [] ∧ ¬ hasVote v.latest q.candId then ⟨pre, no t1 v1⟩
     else
@@ -356,21 +363,27 @@ def aePrevOk (d : Durable) (v2 : Vol) (a : AEReq) : Option Bool :=
       | none => none
       | some pe => some (a.prevTerm = pe.term)
 
+/-- only entries this request covers are known to match the leader's log -/
+def aeLastCovered (a : AEReq) : Nat :=
+  match a.entries.getLast? with
+  | some e => e.index
+  | none => a.prevIdx
+
+/-- the new commit index, and the latest configuration becoming the committed one -/
+def aeCommitVol (v3 : Vol) (idx : Nat) : Vol :=
+  let v4 : Vol := { v3 with commit := idx }
+  if v4.latestIdx ≤ idx then { v4 with committed := v4.latest, committedIdx := v4.latestIdx } else v4
+
+def aeApplied (v5 : Vol) (idx : Nat) : Vol := if idx ≤ v5.applied then v5 else { v5 with applied := idx }
+
 /-- the commit-index update and `processLogs`, after everything has been stored -/
 def aeFinish (v0 : Vol) (t1 : Nat) (a : AEReq) (steps : List (Write × Res)) (dlog : List Entry) (v3 : Vol) : Plan :=
-  -- only entries this request covers are known to match the leader's log
-  let lastCovered := match a.entries.getLast? with
-    | some e => e.index
-    | none => a.prevIdx
-  let idx := min a.commit lastCovered
+  let idx := min a.commit (aeLastCovered a)
   if a.commit > 0 ∧ a.commit > v3.commit ∧ idx > v3.commit then
-    let v4 : Vol := { v3 with commit := idx }
-    let v5 : Vol := if v4.latestIdx ≤ idx then { v4 with committed := v4.latest, committedIdx := v4.latestIdx } else v4
+    let v5 := aeCommitVol v3 idx
     match processLogs dlog v5.applied idx with
     | none => ⟨steps, { mkRes .none v5 with panic := true }⟩
-    | some calls =>
-      let v6 : Vol := if idx ≤ v5.applied then v5 else { v5 with applied := idx }
-      ⟨steps, ⟨.append t1 (lastIndex v0) true false, v6, calls, false⟩⟩
+    | some calls => ⟨steps, ⟨.append t1 (lastIndex v0) true false, aeApplied v5 idx, calls, false⟩⟩
   else ⟨steps, mkRes (.append t1 (lastIndex v0) true false) v3⟩
 
 /-- the entries part: scan, truncate from the first conflict, stage, store, configurations -/
@@ -427,41 +440,50 @@ structure ISReq where
   sizeOk : Bool      -- the streamed body has the announced size
 deriving DecidableEq, Repr
 
+/-- the term write of InstallSnapshot, if the request carries a newer term -/
+def isPre (v : Vol) (q : ISReq) : List (Write × Res) :=
+  if q.term > v.term then
+    [(.setTerm q.term, { mkRes (.install v.term false false) { v with role := .follower, leader := 0, leaderId := 0 } with panic := true })]
+  else []
+
+/-- volatile state after the term / leader updates -/
+def isVol2 (v : Vol) (q : ISReq) : Vol :=
+  let v1 : Vol := if q.term > v.term then stepDown v q.term else v
+  { v1 with leader := q.leader, leaderId := q.leaderId }
+
+/-- everything after the term part: the writes (snapshot, truncation, compaction) and the answer -/
+def isTail (cf : Cfg) (d : Durable) (v2 : Vol) (q : ISReq) : List (Write × Res) × Res :=
+  let t1 := v2.term
+  -- a snapshot the state machine is already past: acknowledged, nothing touched
+  if q.lastIdx ≤ v2.applied ∨ holdsEntry d v2 q.lastIdx q.lastTerm then ([], mkRes (.install t1 true false) v2)
+  else if ¬ q.sizeOk then ([], mkRes (.install t1 false true) v2)       -- sink cancelled, "short read"
+  else
+    let s : Snap := ⟨q.lastIdx, q.lastTerm, q.cfgIdx, q.cfg, q.data, true⟩
+    let v3 : Vol := { v2 with applied := q.lastIdx, snapIdx := q.lastIdx, snapTerm := q.lastTerm,
+                              latest := q.cfg, latestIdx := q.cfgIdx, committed := q.cfg, committedIdx := q.cfgIdx }
+    if cf.monotonic then
+      -- removeOldLogs: the whole store goes; then the cached position is reloaded
+      let del := CP.compactRange d.high d.high 0 d.low
+      let d1 := match del with | some (lo, hi) => deleteRangeD d lo hi | none => d
+      let v4 := reloadLast d1 v3
+      let res : Res := ⟨.install t1 true false, v4, [.restore q.data], false⟩
+      ([(.snapSave s, res)] ++ (match del with | some (lo, hi) => [(.deleteRange lo hi, res)] | none => []), res)
+    else
+      -- drop the unverified suffix from the snapshot index on, reload, compact below the snapshot
+      let delA : Option (Nat × Nat) := if v3.lastLogIdx ≥ q.lastIdx then some (q.lastIdx, v3.lastLogIdx) else none
+      let dA := match delA with | some (lo, hi) => deleteRangeD d lo hi | none => d
+      let vA := reloadLast dA v3
+      let delB := CP.compactRange q.lastIdx vA.lastLogIdx cf.trailing dA.low
+      let dB := match delB with | some (lo, hi) => deleteRangeD dA lo hi | none => dA
+      let vB := reloadLast dB vA
+      let res : Res := ⟨.install t1 true false, vB, [.restore q.data], false⟩
+      ([(.snapSave s, res)]
+           ++ (match delA with | some (lo, hi) => [(.deleteRange lo hi, res)] | none => [])
+           ++ (match delB with | some (lo, hi) => [(.deleteRange lo hi, res)] | none => []), res)
+
 def isPlan (cf : Cfg) (d : Durable) (v : Vol) (q : ISReq) : Plan :=
   if q.term < v.term then ⟨[], mkRes (.install v.term false false) v⟩
-  else
-    let down := q.term > v.term
-    let pre : List (Write × Res) :=
-      if down then [(.setTerm q.term, { mkRes (.install v.term false false) { v with role := .follower, leader := 0, leaderId := 0 } with panic := true })] else []
-    let v1 : Vol := if down then stepDown v q.term else v
-    let t1 := v1.term
-    let v2 : Vol := { v1 with leader := q.leader, leaderId := q.leaderId }
-    -- a snapshot the state machine is already past: acknowledged, nothing touched
-    if q.lastIdx ≤ v2.applied ∨ holdsEntry d v2 q.lastIdx q.lastTerm then ⟨pre, mkRes (.install t1 true false) v2⟩
-    else if ¬ q.sizeOk then ⟨pre, mkRes (.install t1 false true) v2⟩       -- sink cancelled, "short read"
-    else
-      let s : Snap := ⟨q.lastIdx, q.lastTerm, q.cfgIdx, q.cfg, q.data, true⟩
-      let v3 : Vol := { v2 with applied := q.lastIdx, snapIdx := q.lastIdx, snapTerm := q.lastTerm,
-                                latest := q.cfg, latestIdx := q.cfgIdx, committed := q.cfg, committedIdx := q.cfgIdx }
-      if cf.monotonic then
-        -- removeOldLogs: the whole store goes; then the cached position is reloaded
-        let del := CP.compactRange d.high d.high 0 d.low
-        let d1 := match del with | some (lo, hi) => deleteRangeD d lo hi | none => d
-        let v4 := reloadLast d1 v3
-        let res : Res := ⟨.install t1 true false, v4, [.restore q.data], false⟩
-        ⟨pre ++ [(.snapSave s, res)] ++ (match del with | some (lo, hi) => [(.deleteRange lo hi, res)] | none => []), res⟩
-      else
-        -- drop the unverified suffix from the snapshot index on, reload, compact below the snapshot
-        let delA : Option (Nat × Nat) := if v3.lastLogIdx ≥ q.lastIdx then some (q.lastIdx, v3.lastLogIdx) else none
-        let dA := match delA with | some (lo, hi) => deleteRangeD d lo hi | none => d
-        let vA := reloadLast dA v3
-        let delB := CP.compactRange q.lastIdx vA.lastLogIdx cf.trailing dA.low
-        let dB := match delB with | some (lo, hi) => deleteRangeD dA lo hi | none => dA
-        let vB := reloadLast dB vA
-        let res : Res := ⟨.install t1 true false, vB, [.restore q.data], false⟩
-        ⟨pre ++ [(.snapSave s, res)]
-             ++ (match delA with | some (lo, hi) => [(.deleteRange lo hi, res)] | none => [])
-             ++ (match delB with | some (lo, hi) => [(.deleteRange lo hi, res)] | none => []), res⟩
+  else ⟨isPre v q ++ (isTail cf d (isVol2 v q) q).1, (isTail cf d (isVol2 v q) q).2⟩
 
 /-! ## TimeoutNow (raft.go:2232) -/
 
